@@ -201,10 +201,66 @@ def m_obs(storage, oids, tids):
     return out
 
 
+def refused_copy(res):
+    """A copy that the destination refuses half way (a description longer
+    than a FileStorage takes) fails - and leaves the destination usable:
+    not inside the refused transaction, its commit lock free, holding the
+    transactions copied before."""
+    from mc import hclasses
+    viol = []
+    d = env.new_dir('cpr')
+    MS = env.mod('ZODB.MappingStorage').MappingStorage
+    try:
+        src = MS('src')
+        for i, desc in enumerate((b'fine', b'x' * 70000)):
+            env.CLOCK.now += 1
+            t = world.TMD(b'u', desc)
+            src.tpc_begin(t)
+            src.store(p64(i + 1), b'\0' * 8, hclasses.mkrec('P', i), '', t)
+            src.tpc_vote(t)
+            src.tpc_finish(t)
+        for tag, kw in (('F', {}),
+                        ('Fb', dict(blob_dir=os.path.join(d, 'bl')))):
+            res.clause('C17.copy')
+            dest = FS()(os.path.join(d, tag + '.fs'), **kw)
+            try:
+                r = call(dest.copyTransactionsFrom, src)
+                if not isinstance(r, Exc):
+                    viol.append(('copy', 'refused:%s:accepted' % tag, {}))
+                    continue
+                if dest.tpc_transaction() is not None:
+                    viol.append(('copy', 'refused:%s:left-inside-'
+                                 'transaction' % tag, dict(got=repr(r)[:100])))
+                lock = dest._commit_lock
+                free = lock.acquire(False)
+                if free:
+                    lock.release()
+                else:
+                    viol.append(('copy', 'refused:%s:commit-lock-held' % tag,
+                                 dict(got=repr(r)[:100])))
+                got = call(dest.load, p64(1))
+                if isinstance(got, Exc):
+                    viol.append(('copy', 'refused:%s:earlier-transaction-'
+                                 'lost' % tag, dict(got=repr(got))))
+            finally:
+                if dest.tpc_transaction() is not None:
+                    # do not hang in close()
+                    try:
+                        dest.tpc_abort(dest.tpc_transaction())
+                    except Exception:
+                        pass
+                dest.close()
+    finally:
+        env.rm_dir(d)
+    return viol
+
+
 def m_node(w, hist, cfg, res):
     """A MappingStorage as the source of a copy into a FileStorage."""
     viol = []
     n = 0
+    if not hist:
+        return 1, False, refused_copy(res)
     if not w.model.txns:
         return 0, False, viol
     m = w.model
